@@ -45,10 +45,29 @@ Rep == {L("x", "term"), L("@a:x", "attr-term"), L("k:v", "tag"), L("@n:[1 TO 2]"
 D1Rep == {And(a, b) : a, b \in Rep} \cup {Or(a, b) : a, b \in Rep} \cup {Grp(a) : a \in Rep} \cup {Neg(a) : a \in Rep}
 Depth2 == {And(Grp(a), b) : a \in D1Rep, b \in Rep} \cup {Or(a, Grp(b)) : a \in Rep, b \in D1Rep} \cup {Neg(a) : a \in D1Rep}
           \cup {Jux(Grp(a), Grp(b)) : a \in {And(x, y) : x, y \in Rep}, b \in {Or(x, y) : x, y \in {L("x", "term"), L("k:v", "tag")}}}
+          \* a negated compound as an operand of AND / OR / juxtaposition, on either side (NOT binds tighter than AND, AND tighter than OR)
+          \cup {And(b, Not(a)) : a \in D1Rep, b \in Rep} \cup {And(Neg(a), b) : a \in D1Rep, b \in Rep}
+          \cup {Or(b, Not(a)) : a \in D1Rep, b \in Rep} \cup {Jux(Neg(a), b) : a \in D1Rep, b \in Rep}
+          \cup {Or(Grp(And(a, b)), Not(Or(a, b))) : a, b \in Rep} \cup {And(Grp(Or(a, b)), Neg(And(a, b))) : a, b \in Rep}
 
 ASSUME PrintT(<<"LEAVES", ToJson(SetToSeq(Leaves))>>)
 ASSUME PrintT(<<"DEPTH1", ToJson(SetToSeq(Depth1))>>)
 ASSUME PrintT(<<"DEPTH2", ToJson(SetToSeq(Depth2))>>)
+
+(* ---------- universes of the leaf-semantics check (C31, FnLaws!DdLeaf) ---------- *)
+\* attribute values and bounds in tenths; fl = carried as a float
+NumVals == {[n10 |-> x, fl |-> FALSE] : x \in {-60, -50, 0, 10, 50, 60, 20}} \cup {[n10 |-> x, fl |-> TRUE] : x \in {-55, 55, 15, 50, -50, 5}}
+NumBounds == {-55, -50, 0, 10, 15, 50, 55, 60}
+StrVals == {<<120>>, <<120, 121>>, <<121>>, <<88>>, <<97, 98, 99>>, <<98>>, <<120, 32, 121>>, <<233>>, <<122, 233>>}
+StrBounds == {<<120>>, <<98>>, <<120, 121>>, <<97, 98>>, <<233>>}
+Globs == {<<120, 42>>, <<42, 121>>, <<120, 42, 121>>, <<42, 98, 42>>, <<97, 42, 99>>, <<42>>, <<120, 121, 42>>}
+Tags == {<<>>, <<"k:v">>, <<"k:w", "z">>, <<"k:vv", "j:v">>, <<"kk:v">>, <<"k">>}
+ASSUME PrintT(<<"NUMVALS", ToJson(SetToSeq(NumVals))>>)
+ASSUME PrintT(<<"NUMBOUNDS", ToJson(SetToSeq(NumBounds))>>)
+ASSUME PrintT(<<"STRVALS", ToJson(SetToSeq(StrVals))>>)
+ASSUME PrintT(<<"STRBOUNDS", ToJson(SetToSeq(StrBounds))>>)
+ASSUME PrintT(<<"GLOBS", ToJson(SetToSeq(Globs))>>)
+ASSUME PrintT(<<"TAGS", ToJson(SetToSeq(Tags))>>)
 VARIABLE dummy
 Init == dummy = 0
 Next == UNCHANGED dummy
